@@ -192,15 +192,9 @@ example : ∃ p q r : ℝ, disc p q < 0 ∧ r ^ 3 + p * r + q = 0 :=
   ⟨-1, 0, 1, by rw [disc_real]; norm_num, by norm_num⟩
 
 /-
-  ext `ms_selected_root` (NOT proved): for `F > 0` the root `wlc_marko_siggia_distance` selects
-  (index 1) lies in `[0, L_c)`, which would upgrade `ms_cubic_iff` / `ms_force_distance` to
-  `msForce (msDistance F ..) .. = F` without the side condition `msDistance F .. < Lc`.
-      theorem ms_selected_root (F Lp Lc kT : ℝ) (hF : 0 < F) (hLp : 0 < Lp) (hLc : 0 < Lc) (hkT : 0 < kT) :
-          0 ≤ msDistance F Lp Lc kT ∧ msDistance F Lp Lc kT < Lc
-  Proved fragment: `ms_selected_root_partial` — in the three-real-root regime (`det < 0`) the
-  selected value is the SMALLEST real root of the Marko–Siggia cubic.  Missing: the smallest root
-  is the one below `L_c` (sign pattern `P(0) < 0 < P(L_c)` + intermediate value), and the Cardano
-  regime (`det ≥ 0`: uniqueness of the real root / the double-root boundary).
+  Fragment of `ms_selected_root` kept from round 1 (the full statement is proved below, deepening round D):
+  in the three-real-root regime (`det < 0`) the value `wlc_marko_siggia_distance` selects is the SMALLEST real
+  root of the Marko–Siggia cubic.
 -/
 theorem ms_selected_root_partial (F Lp Lc kT : ℝ)
     (hdet : disc (depP (msDistanceCoeffs F Lp Lc kT).1 (msDistanceCoeffs F Lp Lc kT).2.1)
@@ -227,6 +221,146 @@ example : disc (depP (msDistanceCoeffs (10 : ℝ) 1 1 1).1 (msDistanceCoeffs (10
   simp only [msDistanceCoeffs]
   rw [disc_real, depP_real, depQ_real]
   norm_num
+
+/-! ## deepening round D: which real root is returned; Marko–Siggia family round trips outright -/
+
+/-- `calc_cubic_root`, Cardano regime, strictly positive discriminant: the returned value is THE real
+    root of the cubic, whatever `selected_root` was asked for — every real root equals it. -/
+theorem cubic_cardano_unique (a b c R : ℝ) (k : ℕ) (hdet : 0 < disc (depP a b) (depQ a b c))
+    (hR : R ^ 3 + a * R ^ 2 + b * R + c = 0) : R = calcCubicRoot a b c k := by
+  by_contra hne
+  have := (calcCubicRoot_other_root_double a b c R k hdet.le hR hne).1
+  linarith
+
+/-- on the boundary `det = 0` (still the Cardano formula) a real root other than the returned value is
+    a double root: the cubic factors as `(x - R)² (x - returned)` — Cardano's value is the SIMPLE root. -/
+theorem cubic_cardano_boundary (a b c R : ℝ) (k : ℕ) (hdet : 0 ≤ disc (depP a b) (depQ a b c))
+    (hR : R ^ 3 + a * R ^ 2 + b * R + c = 0) (hne : R ≠ calcCubicRoot a b c k) :
+    disc (depP a b) (depQ a b c) = 0 ∧
+    ∀ x : ℝ, x ^ 3 + a * x ^ 2 + b * x + c = (x - R) ^ 2 * (x - calcCubicRoot a b c k) :=
+  calcCubicRoot_other_root_double a b c R k hdet hR hne
+
+-- non-vacuity: x³ + x + 1 has det = 31/108 > 0 and a real root (its Cardano value);
+-- x³ - 3x + 2 = (x - 1)²(x + 2) has det = 0, the root R = 1 is not the returned value -2
+example : 0 < disc (depP (0 : ℝ) 1) (depQ (0 : ℝ) 1 1) := by
+  rw [disc_real, depP_real, depQ_real]; norm_num
+example : ∃ a b c R : ℝ, 0 ≤ disc (depP a b) (depQ a b c) ∧ R ^ 3 + a * R ^ 2 + b * R + c = 0 ∧
+    R ≠ calcCubicRoot a b c 1 := by
+  refine ⟨0, -3, 2, 1, ?_, by norm_num, ?_⟩
+  · rw [disc_real, depP_real, depQ_real]; norm_num
+  · intro h
+    have hd : disc (depP (0 : ℝ) (-3)) (depQ (0 : ℝ) (-3) 2) = 0 := by
+      rw [disc_real, depP_real, depQ_real]; norm_num
+    have hq : depQ (0 : ℝ) (-3) 2 = 2 := by rw [depQ_real]; norm_num
+    rw [calcCubicRoot_real, depressedRoot_real, if_pos hd.ge, hd, hq, cardano_real] at h
+    have hc : Real.cbrt (-2 / 2 + √0) = -1 := by
+      apply cube_inj; rw [cbrt_pow3]; norm_num
+    have hc' : Real.cbrt (-2 / 2 - √0) = -1 := by
+      apply cube_inj; rw [cbrt_pow3]; norm_num
+    rw [hc, hc'] at h
+    norm_num at h
+
+/-- **ms_selected_root** (was NOT proved; `ms_selected_root_partial` was its fragment): for every positive
+    force and positive parameters the root `wlc_marko_siggia_distance` selects (index 1: Cardano's value when
+    `det ≥ 0`, the smallest of the three real roots when `det < 0`) lies strictly between 0 and the contour
+    length. -/
+theorem ms_selected_root (F Lp Lc kT : ℝ) (hF : 0 < F) (hLp : 0 < Lp) (hLc : 0 < Lc) (hkT : 0 < kT) :
+    0 < msDistance F Lp Lc kT ∧ msDistance F Lp Lc kT < Lc :=
+  ms_selected_root_aux F Lp Lc kT hF hLp hLc hkT
+
+/-- …which upgrades `ms_force_distance` to the round trip outright: `force(distance(F)) = F` for every `F > 0`, -/
+theorem ms_force_of_distance (F Lp Lc kT : ℝ) (hF : 0 < F) (hLp : 0 < Lp) (hLc : 0 < Lc) (hkT : 0 < kT) :
+    msForce (msDistance F Lp Lc kT) Lp Lc kT = F :=
+  ms_force_distance F Lp Lc kT hLp hLc hkT (ms_selected_root F Lp Lc kT hF hLp hLc hkT).2
+
+/-- and `distance(force(d)) = d` for every extension strictly between 0 and the contour length. -/
+theorem ms_distance_of_force (d Lp Lc kT : ℝ) (hd0 : 0 < d) (hd : d < Lc) (hLp : 0 < Lp) (hLc : 0 < Lc)
+    (hkT : 0 < kT) : msDistance (msForce d Lp Lc kT) Lp Lc kT = d := by
+  have hF := msForce_pos d Lp Lc kT hLp hLc hkT hd0 hd
+  have hsel := ms_selected_root (msForce d Lp Lc kT) Lp Lc kT hF hLp hLc hkT
+  have hback := ms_force_of_distance (msForce d Lp Lc kT) Lp Lc kT hF hLp hLc hkT
+  rcases lt_trichotomy (msDistance (msForce d Lp Lc kT) Lp Lc kT) d with h | h | h
+  · have := msForce_strictMono _ d Lp Lc kT hLp hLc hkT h hd; linarith
+  · exact h
+  · have := msForce_strictMono d _ Lp Lc kT hLp hLc hkT h hsel.2; linarith
+
+example : ∃ d Lp Lc kT : ℝ, 0 < d ∧ d < Lc ∧ 0 < Lp ∧ 0 < Lc ∧ 0 < kT :=
+  ⟨12, 40, 16, 4.11, by norm_num, by norm_num, by norm_num, by norm_num, by norm_num⟩
+
+/-- `ewlc_marko_siggia_distance` is `wlc_marko_siggia_distance` plus the elastic stretch `Lc·F/St`: the two
+    coefficient tables describe the same cubic shifted by `Lc·F/St`, the depressed cubics coincide. -/
+theorem ems_distance_is_shifted_ms (F Lp Lc St kT : ℝ) (hSt : St ≠ 0) (hkT : kT ≠ 0) :
+    emsDistance F Lp Lc St kT = msDistance F Lp Lc kT + Lc * F / St :=
+  emsDistance_eq_shift F Lp Lc St kT hSt hkT
+
+example : ∃ St kT : ℝ, St ≠ 0 ∧ kT ≠ 0 := ⟨1500, 4.11, by norm_num, by norm_num⟩
+
+/-- extensible Marko–Siggia, distance direction: for every positive force the returned distance lies in the
+    domain of the published relation (`1 - d/Lc + F/St > 0`) and beyond the purely elastic stretch. -/
+theorem ems_distance_selected_root (F Lp Lc St kT : ℝ) (hF : 0 < F) (hLp : 0 < Lp) (hLc : 0 < Lc)
+    (hSt : 0 < St) (hkT : 0 < kT) :
+    Lc * F / St < emsDistance F Lp Lc St kT ∧ 0 < 1 - emsDistance F Lp Lc St kT / Lc + F / St := by
+  have hsel := ms_selected_root F Lp Lc kT hF hLp hLc hkT
+  rw [ems_distance_is_shifted_ms F Lp Lc St kT hSt.ne' hkT.ne']
+  refine ⟨by linarith [hsel.1], ?_⟩
+  have : (msDistance F Lp Lc kT + Lc * F / St) / Lc = msDistance F Lp Lc kT / Lc + F / St := by
+    field_simp
+  rw [this]
+  have : msDistance F Lp Lc kT / Lc < 1 := (div_lt_one hLc).mpr hsel.2
+  linarith
+
+/-- extensible Marko–Siggia, force direction: for EVERY distance the root `ewlc_marko_siggia_force` selects
+    (index 2) lies in the domain of the published relation. -/
+theorem ems_force_selected_root (d Lp Lc St kT : ℝ) (hLp : 0 < Lp) (hLc : 0 < Lc) (hSt : 0 < St)
+    (hkT : 0 < kT) : 0 < 1 - d / Lc + emsForce d Lp Lc St kT / St := by
+  have h := ems_force_selected_root_aux d Lp Lc St kT hLp hLc hSt hkT
+  have : d / Lc - 1 < emsForce d Lp Lc St kT / St := by
+    rw [lt_div_iff₀ hSt]; exact h
+  linarith
+
+/-- hence both closed forms solve the published extensible Marko–Siggia relation outright
+    (`ems_force_solves` / `ems_distance_solves` without their domain hypothesis) -/
+theorem ems_force_solves_all (d Lp Lc St kT : ℝ) (hLp : 0 < Lp) (hLc : 0 < Lc) (hSt : 0 < St)
+    (hkT : 0 < kT) : emsResidual (emsForce d Lp Lc St kT) d Lp Lc St kT = 0 :=
+  ems_force_solves d Lp Lc St kT hLp hLc hSt hkT (ems_force_selected_root d Lp Lc St kT hLp hLc hSt hkT)
+
+theorem ems_distance_solves_all (F Lp Lc St kT : ℝ) (hF : 0 < F) (hLp : 0 < Lp) (hLc : 0 < Lc)
+    (hSt : 0 < St) (hkT : 0 < kT) : emsResidual F (emsDistance F Lp Lc St kT) Lp Lc St kT = 0 :=
+  ems_distance_solves F Lp Lc St kT hLc hSt hkT (ems_distance_selected_root F Lp Lc St kT hF hLp hLc hSt hkT).2
+
+/-- `force(distance(F)) = F` for every positive force, -/
+theorem ems_force_of_distance (F Lp Lc St kT : ℝ) (hF : 0 < F) (hLp : 0 < Lp) (hLc : 0 < Lc)
+    (hSt : 0 < St) (hkT : 0 < kT) :
+    emsForce (emsDistance F Lp Lc St kT) Lp Lc St kT = F := by
+  set D := emsDistance F Lp Lc St kT with hD
+  have h1 := ems_distance_solves_all F Lp Lc St kT hF hLp hLc hSt hkT
+  have y1 := (ems_distance_selected_root F Lp Lc St kT hF hLp hLc hSt hkT).2
+  have h2 := ems_force_solves_all D Lp Lc St kT hLp hLc hSt hkT
+  have y2 := ems_force_selected_root D Lp Lc St kT hLp hLc hSt hkT
+  rw [← hD] at h1 y1
+  rcases lt_trichotomy (emsForce D Lp Lc St kT) F with h | h | h
+  · have := emsResidual_strictAnti_F _ F D Lp Lc St kT hLp hSt hkT h y2; linarith
+  · exact h
+  · have := emsResidual_strictAnti_F F _ D Lp Lc St kT hLp hSt hkT h y1; linarith
+
+/-- and `distance(force(d)) = d` for every positive distance (also beyond the contour length). -/
+theorem ems_distance_of_force (d Lp Lc St kT : ℝ) (hd : 0 < d) (hLp : 0 < Lp) (hLc : 0 < Lc)
+    (hSt : 0 < St) (hkT : 0 < kT) :
+    emsDistance (emsForce d Lp Lc St kT) Lp Lc St kT = d := by
+  set F := emsForce d Lp Lc St kT with hFd
+  have h1 := ems_force_solves_all d Lp Lc St kT hLp hLc hSt hkT
+  have y1 := ems_force_selected_root d Lp Lc St kT hLp hLc hSt hkT
+  rw [← hFd] at h1 y1
+  have hF : 0 < F := ems_force_pos_of_solves F d Lp Lc St kT hLp hLc hSt hkT hd y1 h1
+  have h2 := ems_distance_solves_all F Lp Lc St kT hF hLp hLc hSt hkT
+  have y2 := (ems_distance_selected_root F Lp Lc St kT hF hLp hLc hSt hkT).2
+  rcases lt_trichotomy (emsDistance F Lp Lc St kT) d with h | h | h
+  · have := emsResidual_strictMono_d F _ d Lp Lc St kT hLc h y1; linarith
+  · exact h
+  · have := emsResidual_strictMono_d F d _ Lp Lc St kT hLc h y2; linarith
+
+example : ∃ d Lp Lc St kT : ℝ, 0 < d ∧ 0 < Lp ∧ 0 < Lc ∧ 0 < St ∧ 0 < kT :=
+  ⟨17, 40, 16, 1500, 4.11, by norm_num, by norm_num, by norm_num, by norm_num, by norm_num⟩
 
 /-! ## model algebra: composites, offsets, inverses, DNA parametrisations -/
 
